@@ -1004,8 +1004,11 @@ fn post_period(ctx: &mut Ctx, w: &World, end: ChainEpoch, heal: bool) -> Result<
 
 fn run_sequence(cfg: &RunCfg, rep: &mut Report, seq: u64, max_steps: u64) -> (bool, Vec<String>) {
     let mut r = seq_rng(cfg.seed, seq);
-    let w = World::new(false);
-    let policy = Policy::default();
+    // "tiny" sequences: 2 KiB sectors, whose Window PoSt partitions hold two sectors, so that a
+    // deadline soon has several partitions (deadline-level queues and memos over more than one partition)
+    let tiny = seq % 4 == 1;
+    let w = if tiny { World::new_small_sectors(false) } else { World::new(false) };
+    let policy = w.vm.policy.clone();
     let mut ctx = Ctx {
         cfg,
         rep,
@@ -1033,7 +1036,7 @@ fn run_sequence(cfg: &RunCfg, rep: &mut Report, seq: u64, max_steps: u64) -> (bo
     ctx.lines.push(format!("# seed {} seq {}: {} miner(s), start epoch {}", cfg.seed, seq, n_miners, start_epoch));
     let res: Result<(), Stop> = (|| {
         for i in 0..n_miners as usize {
-            let seal = if big || r.chance(1, 3) { RegisteredSealProof::StackedDRG64GiBV1P1 } else { RegisteredSealProof::StackedDRG32GiBV1P1 };
+            let seal = if tiny { RegisteredSealProof::StackedDRG2KiBV1P1 } else if big || r.chance(1, 3) { RegisteredSealProof::StackedDRG64GiBV1P1 } else { RegisteredSealProof::StackedDRG32GiBV1P1 };
             let post = seal.registered_window_post_proof().unwrap();
             let owner = accts[i].0;
             let params = CreateMinerParams {
@@ -1351,9 +1354,20 @@ fn run_sequence(cfg: &RunCfg, rep: &mut Report, seq: u64, max_steps: u64) -> (bo
                                 2 => old,
                                 _ => old + r.range(1, 200) * 2880 + r.range(0, 2879),
                             };
+                            let mut extensions = vec![ExpirationExtension2 { deadline: dl_used, partition: pidx, sectors: bf(&nums), sectors_with_claims: vec![], new_expiration: new_exp }];
+                            // one message, several declarations: other partitions of the same deadline,
+                            // mostly with the same new expiration
+                            for q in s.parts.iter().filter(|q| q.dl == dl_used && q.idx != pidx) {
+                                if extensions.len() >= 3 || !r.chance(2, 3) { continue; }
+                                let act2: Vec<u64> = q.active().into_iter().collect();
+                                if act2.is_empty() { continue; }
+                                let e2 = if r.chance(3, 4) { new_exp } else { new_exp + 2880 };
+                                extensions.push(ExpirationExtension2 { deadline: dl_used, partition: q.idx, sectors: bf(&pick_subset(&mut r, &act2, 2)), sectors_with_claims: vec![], new_expiration: e2 });
+                            }
+                            let ndecl = extensions.len();
                             let a = ctx.send(&w, "extend", &owner, &id, &TokenAmount::zero(), MinerMethod::ExtendSectorExpiration2 as u64,
-                                Some(ExtendSectorExpiration2Params { extensions: vec![ExpirationExtension2 { deadline: dl_used, partition: pidx, sectors: bf(&nums), sectors_with_claims: vec![], new_expiration: new_exp }] }))?.0;
-                            ctx.lines.push(format!("   new expiration {}", new_exp));
+                                Some(ExtendSectorExpiration2Params { extensions }))?.0;
+                            ctx.lines.push(format!("   new expiration {} ({} declaration(s))", new_exp, ndecl));
                             a
                         }
                     };
